@@ -79,6 +79,19 @@ REJECTED = [
     "CREATE FUNCTION {f}() RETURNS bigint AS $$ SELECT 1 $$ LANGUAGE sql;",
     "DO $$ BEGIN PERFORM 1; END $$;",
     "CREATE FUNCTION {f}() RETURNS int AS $$\n  SELECT {a} FROM {t}\n$$ LANGUAGE sql;",
+    # unsupported statements whose beginning is a complete supported statement
+    "CREATE TABLE {t} AS SELECT {a}, {b} FROM {s};",
+    "CREATE TABLE {t} AS SELECT * FROM {s} WHERE {a} > 0;",
+    "CREATE SEQUENCE {v} OWNED BY {t}.{a};",
+    "CREATE SEQUENCE {v} START 1 OWNED BY {t}.{a};",
+    "CREATE INDEX {v} ON {t} ({a}) WHERE {a} > 0;",
+    "CREATE TABLE {t} (LIKE {s} INCLUDING ALL);",
+    "CREATE TABLE {t} PARTITION OF {s} FOR VALUES IN (1);",
+    "ALTER TABLE {t} ADD CONSTRAINT {v} EXCLUDE USING gist ({a} WITH =);",
+    "CREATE TYPE {v} AS RANGE (subtype = float8);",
+    "ALTER TABLE {t} ENABLE ROW LEVEL SECURITY;",
+    "ALTER TABLE {t} DROP CONSTRAINT {v};",
+    "ALTER TABLE {t} ALTER COLUMN {a} DROP NOT NULL;",
     "CREATE TABLE;",
     "ALTER TABLE;",
     "CREATE INDEX;",
